@@ -14,7 +14,7 @@
      pint   <radix> s:<string> <bits>  parseInt(string, radix)
      lit    s:<string> <bits>        the numeric literal evaluated by the runtime
      rt     <bits> <bits>            Number(String(x)) = x
-  <bits> = 16 hex digits.  <string> has no spaces ('~' stands for a space).
+  <bits> = 16 hex digits.  <string> has no spaces ('~' stands for a space, \\uXXXX for any other code unit).
 -/
 import GojaModel.Base.Proto
 import GojaModel.C12.Model
@@ -182,11 +182,31 @@ def checkParsed (kind : String) (p : Parsed) (res : String) (zeroSignFree := fal
   match bitsOf res with
   | none => bad ("result:" ++ res)
   | some f =>
-    if p.accepts f zeroSignFree then ok (kind ++ ":" ++ parsedTag p ++ resultTag p f)
-    else bad (kind ++ "-not-nearest:" ++ parsedTag p)
+    -- (1) the proved acceptance predicate, (2) the proved rounding function; by `roundOrd_complete` they agree
+    let viaFunction : Bool := match p.expectedBits with
+      | none => f.isNaN
+      | some b => f.toBits == b || (zeroSignFree && f.isZero && b % 2 ^ 63 == 0)
+    let expected : String := match p.expectedBits with
+      | none => "NaN"
+      | some b => Proto.toHexW 16 b
+    if p.accepts f zeroSignFree && viaFunction then ok (kind ++ ":" ++ parsedTag p ++ resultTag p f)
+    else if p.accepts f zeroSignFree != viaFunction then bad (kind ++ "-checker-and-function-disagree expected=" ++ expected)
+    else bad (kind ++ "-not-nearest:" ++ parsedTag p ++ " expected=" ++ expected)
+
+/-- Decode `s:<text>`: `~` is a space, `\uXXXX` one code unit. -/
+def unescChars : Nat → List Char → List Char
+  | 0, _ => []
+  | _, [] => []
+  | fuel + 1, '\\' :: 'u' :: a :: b :: c :: d :: rest =>
+    match Proto.parseHex? (String.ofList [a, b, c, d]) with
+    | some v => Char.ofNat v :: unescChars fuel rest
+    | none => '\\' :: unescChars fuel ('u' :: a :: b :: c :: d :: rest)
+  | fuel + 1, '~' :: rest => ' ' :: unescChars fuel rest
+  | fuel + 1, ch :: rest => ch :: unescChars fuel rest
 
 def unesc (s : String) : List Char :=
-  (s.toList.drop 2).map (fun c => if c == '~' then ' ' else c)
+  let cs := s.toList.drop 2
+  unescChars (cs.length + 1) cs
 
 def handle (line : String) : String :=
   match Proto.words line with
@@ -208,7 +228,7 @@ def handle (line : String) : String :=
   | ["num", s, res] => checkParsed "num" (parseNumber (unesc s)) res
   | ["pfloat", s, res] => checkParsed "pfloat" (parseFloatSpec (unesc s)) res
   | ["pint", r, s, res] => match intOf r with
-    | some r => checkParsed "pint" (parseIntSpec (unesc s) r) res (zeroSignFree := true)
+    | some r => checkParsed "pint" (parseIntSpec (unesc s) r) res
     | none => bad "args"
   | ["lit", s, res] => checkParsed "lit" (parseLiteral (unesc s)) res
   | ["rt", b, res] => match bitsOf b, bitsOf res with
